@@ -28,6 +28,8 @@ func main() {
 		known   = flag.String("known", "", "known findings file")
 		explain = flag.String("explain", "", "print only obligations whose construct key contains this string, with trails")
 		list    = flag.Bool("list", false, "list properties")
+		dumpInv = flag.Bool("dump-inventory", false, "print the function inventory of -repo (used to regenerate inventory.txt)")
+		noInl   = flag.Bool("no-inlined-view", false, "do not fall back to the inlined view")
 	)
 	flag.Parse()
 	if *list {
@@ -37,6 +39,26 @@ func main() {
 		}
 		sort.Strings(ids)
 		fmt.Println(strings.Join(ids, " "))
+		return
+	}
+	if *dumpInv {
+		p, err := loadSyntaxOnly(*repo, "", nil)
+		if err != nil {
+			fmt.Printf("ERROR load: %v\n", err)
+			os.Exit(2)
+		}
+		p386, err := loadSyntaxOnly(*repo, "386", nil)
+		if err != nil {
+			fmt.Printf("ERROR load: %v\n", err)
+			os.Exit(2)
+		}
+		seen := map[string]bool{}
+		for _, k := range append(dumpInventory(p), dumpInventory(p386)...) {
+			if !seen[k] {
+				seen[k] = true
+				fmt.Println(k)
+			}
+		}
 		return
 	}
 	seed, _ := strconv.Atoi(os.Getenv("VERIF_SEED"))
@@ -74,6 +96,9 @@ func main() {
 			fmt.Printf("ERROR load (%s): %v\n", arch, err)
 			os.Exit(2)
 		}
+		var inl *Program
+		var inlNames []string
+		inlTried := false
 		for _, id := range ids {
 			st := time.Now()
 			if len(ids) == 1 {
@@ -88,6 +113,37 @@ func main() {
 					}
 				}()
 				props[id](c)
+				// Inlined view (see inlineview.go): only consulted when the tree as written has
+				// unresolved obligations and contains helpers the reference tree did not have.
+				if c.unresolved() > 0 && !*noInl {
+					if !inlTried {
+						inlTried = true
+						var ierr error
+						inl, inlNames, ierr = buildInlinedView(*repo, arch, p)
+						if ierr != nil {
+							fmt.Printf("NOTE inlined view unavailable: %v\n", ierr)
+							inl = nil
+						}
+					}
+					if inl != nil {
+						c2 := newCtx(inl, id, *tier, kf)
+						props[id](c2)
+						if c2.unresolved() == 0 {
+							fmt.Printf("NOTE property=%s: %d obligation(s) were not discharged on the tree as written but all are discharged on the semantically identical view with new helpers inlined (%s); the inlined view is reported\n", id, c.unresolved(), strings.Join(inlNames, ", "))
+							c2.extra["view"] = "inlined: calls of helpers that are not in the reference inventory were inlined before deciding (" + strings.Join(inlNames, ", ") + ")"
+							c = c2
+						} else {
+							fmt.Printf("NOTE property=%s: inlined view (%s) also has %d undischarged obligation(s); the tree as written is reported\n", id, strings.Join(inlNames, ", "), c2.unresolved())
+						if os.Getenv("VERIF_DEBUG_INLINE") != "" {
+							for _, o := range c2.Obls {
+								if o.Status != stOK {
+									fmt.Printf("  INLINED-VIEW %s %s [%s] %s %s\n", o.Status, o.Rule, o.Key, o.Pos, o.Msg)
+								}
+							}
+						}
+						}
+					}
+				}
 			}()
 			if *explain != "" {
 				for _, o := range c.Obls {
